@@ -97,6 +97,12 @@ func runForward(c fwdCase) *vh.Failure {
 			}
 		} else if err == nil {
 			return vh.Failf("C20/forward", "FromGo(%d) = %d without error, want an error (unsupported or unknown level)", c.Level, got)
+		} else if i < 3 {
+			// the caller reads (logs, wraps) the error it got: that has no effect on later answers
+			if err.Error() == "" {
+				return vh.Failf("C20/forward", "FromGo(%d) returns an error with an empty text", c.Level)
+			}
+			_ = fmt.Errorf("begin transaction: %w", err).Error()
 		}
 	}
 	if ok && l != sql.LevelDefault {
@@ -236,7 +242,8 @@ func runHistory(c histCase) *vh.Failure {
 		switch op.Kind {
 		case 0:
 			a, err := dblib.ASEIsolationLevelFromGo(sql.IsolationLevel(op.Level))
-			k, v = fmt.Sprintf("FromGo(%d)", op.Level), fmt.Sprintf("%d/%v", a, err != nil)
+			// (the answer includes the text of the error: callers read it)
+			k, v = fmt.Sprintf("FromGo(%d)", op.Level), fmt.Sprintf("%d/%v", a, err)
 			want, ok := supported[sql.IsolationLevel(op.Level)]
 			if ok != (err == nil) || (ok && a != want) {
 				return vh.Failf("C20/forward", "op %d: FromGo(%d) = %d, err=%v; want ok=%v level=%d", i, op.Level, a, err, ok, want)
@@ -385,7 +392,7 @@ func TestConcurrentCallers(t *testing.T) {
 		switch op.Kind {
 		case 0:
 			a, err := dblib.ASEIsolationLevelFromGo(sql.IsolationLevel(op.Level))
-			return fmt.Sprint(int(a), err != nil)
+			return fmt.Sprint(int(a), err)
 		case 1:
 			return fmt.Sprint(int(dblib.ASEIsolationLevel(op.Level).ToGo()))
 		}
